@@ -277,10 +277,10 @@ def mk_bline(b, out, pos2, cap2, san, sig, usable, died, tag):
 # ---------------------------------------------------------------------------------------------------
 # (M)
 
-def memsafe_cfg(n, scratch, minmds, stride, phase, full, emit=True):
-    return ("SPECIFICATION Spec\nCONSTANTS Scratch = %d\nN = %d\nMaxDatagram = %d\nMinMds = %d\nPns = {1, 2, 3, 4}\n"
+def memsafe_cfg(n, scratch, minmds, stride, phase, full, emit=True, pns="{1, 2, 3, 4}"):
+    return ("SPECIFICATION Spec\nCONSTANTS Scratch = %d\nN = %d\nMaxDatagram = %d\nMinMds = %d\nPns = %s\n"
             "Stride = %d\nPhase = %d\nFull = %s\nINVARIANT Sweep\nINVARIANT FitsIsInBounds\nINVARIANT OffLemma\n"
-            % (scratch, n, MAXDG, minmds, stride, phase, full) + ("INVARIANT Emit\n" if emit else ""))
+            % (scratch, n, MAXDG, minmds, pns, stride, phase, full) + ("INVARIANT Emit\n" if emit else ""))
 
 
 TRACE_CONSTANTS = ("CONSTANTS Scratch = %d\nN = 8\nMaxDatagram = %d\nMinMds = %d\nPns = {2}\nStride = 1\nPhase = 0\nFull = FALSE"
@@ -316,9 +316,9 @@ def model_results(check, sweep, small, buf, out):
     r = account(check, sweep)
     model_fails(check, r, "MemSafe")
     out["near"] = [tlc.parse_tuple_line(p) for p in r.prints if p.startswith('<<"NEAR"')]
-    out["calls_swept"] = (NMAX + 1) * (NMAX + 1) * 5 + 2 * 4 * (NMAX + 1)
+    out["calls_swept"] = (NMAX + 1) * (r.distinct - 4 * (NMAX + 1) - 2 * (NMAX + 1)) + 2 * 4 * (NMAX + 1)
     check.cov["memsafe_sweep"] = {"row_states": r.distinct - 4 * (NMAX + 1), "calls_per_row": NMAX + 1,
-                                  "calls_evaluated": out["calls_swept"], "threshold_calls_printed": len(out["near"])}
+                                  "calls_evaluated_by_TLC": out["calls_swept"], "threshold_calls_printed": len(out["near"])}
     model_fails(check, account(check, small), "MemSafe(range-records)")
     rb = account(check, buf)
     if rb.violated:
@@ -595,7 +595,8 @@ def run(check):
     with ThreadPoolExecutor(max_workers=15) as pool:
         # (M) runs in the background while the jobs that do not depend on it execute
         f_sweep = pool.submit(tlc_bg, check, "MemSafe",
-                              memsafe_cfg(NMAX, SCRATCH, MINMDS, stride, check.seed % stride, "FALSE"), "MemSafe_sweep", 8)
+                              memsafe_cfg(NMAX, SCRATCH, MINMDS, stride, check.seed % stride, "FALSE",
+                                          pns="{2, 4}" if quick else "{1, 2, 3, 4}"), "MemSafe_sweep", 8)
         f_small = pool.submit(tlc_bg, check, "MemSafe", memsafe_cfg(n2, 48, 40, 1, 0, "TRUE", emit=False),
                               "MemSafe_range_records", 4)
         f_buf = pool.submit(tlc_bg, check, "BufferModel",
@@ -621,7 +622,8 @@ def run(check):
         for j in jobs:
             jobmap[(tag, j["i"] - jobs[0]["i"])] = j
     clines, blines = [], []
-    for tag in sorted(recs):
+    # library-made calls first: the recorded instance of a violation then shows how the library reaches it
+    for tag in sorted(recs, key=lambda t: (t.startswith("direct"), t.startswith("sess"), t)):
         rs = recs[tag]
         if tag.startswith("buf"):
             blines += buffer_lines(rs, tag)
